@@ -460,13 +460,26 @@ impl Mp4Track {
                     )?;
                 }
 
+                // The earlier samples of the run are in the same track fragment: add up
+                // its size table directly instead of looking every sample up again (each
+                // lookup walks all track fragments).
                 let first_sample_in_trun = sample_id - sample_idx as u32;
-                for i in first_sample_in_trun..sample_id {
-                    sample_offset = sample_offset
-                        .checked_add(self.sample_size(i)? as u64)
-                        .ok_or(Error::InvalidData(
+                let sizes = self.trafs[traf_idx]
+                    .trun
+                    .as_ref()
+                    .map(|trun| trun.sample_sizes.as_slice())
+                    .unwrap_or(&[]);
+                for i in 0..sample_idx {
+                    let size = sizes.get(i).ok_or(Error::EntryInTrunNotFound(
+                        self.track_id(),
+                        BoxType::TrunBox,
+                        first_sample_in_trun + i as u32,
+                    ))?;
+                    sample_offset = sample_offset.checked_add(*size as u64).ok_or(
+                        Error::InvalidData(
                             "attempt to calculate trun entry sample offset with overflow",
-                        ))?;
+                        ),
+                    )?;
                 }
 
                 Ok(sample_offset)
